@@ -11,6 +11,7 @@ import re
 
 from ..engine import site_str
 from ..ir import AnalysisBroken, sym_paths
+from .common import prong_origin
 
 REACT = ("PreReact", "React", "PostReact", "Query")
 UPD = ("PreUpdate", "Update", "PostUpdate")
@@ -25,11 +26,13 @@ TEXT = {
                         "each callee called at most once per path and both on the unconsumed path",
     "C05.consume": "in every reaction-family function, two consecutive calls that may deliver an event are separated by a test of "
                    "_consumed whose consumed-branch skips the second, or a re-arm (_consumed := false), or the second callee is entry-gated",
+    "C05.active-prong": "in C_::deep{PreUpdate,Update,PostUpdate,PreReact,React,PostReact,Query} the prong handed to the sub-state "
+                        "dispatcher / reaction wrapper is registry.compoActive[COMPO_INDEX] of this very region (inactive states receive nothing)",
     "C05.injection": "S_<headed>::deepX: Head::wideX before Head::X for X in EntryGuard, Enter, Reenter, PreUpdate, Update, PreReact, React; "
                      "Head::X before Head::wideX for PostUpdate, PostReact, Exit; A_<multi>::wideX: First before Rest resp. Rest before First",
 }
 
-MIN_INSTANCES = {"C05.phases": 3, "C05.region-order": 6 + 8 + 7, "C05.consume": 12, "C05.injection": 10 + 10}
+MIN_INSTANCES = {"C05.active-prong": 7, "C05.phases": 3, "C05.region-order": 6 + 8 + 7, "C05.consume": 12, "C05.injection": 10 + 10}
 
 
 def declare(ctx):
@@ -156,6 +159,11 @@ def check(ctx, F):
                           {"first_call_line": c1[1].get("l"), "second_call_line": c2[1].get("l"),
                            "second_callee": F.fdisp(c2[2]), "instantiation": F.tname(F.fn(fid).get("tid"), 1)[:200]})
 
+    prong_origin(ctx, F, "C05.active-prong", {
+        "deepPreUpdate": ("compoActive", ("widePreUpdate",)), "deepUpdate": ("compoActive", ("wideUpdate",)),
+        "deepPostUpdate": ("compoActive", ("widePostUpdate",)), "deepPreReact": ("compoActive", ("execute", "widePreReact")),
+        "deepReact": ("compoActive", ("execute", "wideReact")), "deepPostReact": ("compoActive", ("execute", "widePostReact")),
+        "deepQuery": ("compoActive", ("execute", "wideQuery"))})
     check_region_order(ctx, F)
     check_phases(ctx, F)
     check_injection(ctx, F)
